@@ -69,8 +69,9 @@ def main():
                         except OSError: pass
         dst = f"/verif/seeded/{sid}"
         os.makedirs(dst, exist_ok=True)
-        for f in ("patch.diff", "demo.py"):
-            shutil.copy(os.path.join(src, f), dst)
+        for f in ("patch.diff", "demo.py", "fuzz.py"):
+            if os.path.exists(os.path.join(src, f)) and os.path.abspath(os.path.join(src, f)) != os.path.abspath(os.path.join(dst, f)):
+                shutil.copy(os.path.join(src, f), dst)
         meta = {}
         try: meta = json.load(open(os.path.join(src, "meta.json")))
         except Exception as e: meta = {"note": f"agent meta.json unreadable: {e}"}
